@@ -291,7 +291,7 @@ func ruleNetworkSelection(c *Ctx, rule string) {
 			}
 			// every key of common.* is copied into every network's args, unconditionally
 			n := 0
-			allInstrs(fn, func(in ssa.Instruction) {
+			allInstrsX(fn, func(in ssa.Instruction) {
 				mu, ok := in.(*ssa.MapUpdate)
 				if !ok || !pathEndsWith(mu.Map, "Args") {
 					return
